@@ -300,6 +300,8 @@ def gen_spec(R, *, n_lf=None, hc=False, small=False, kinds=None, vrl=None, rows=
                     idx_like = with_index if with_index is not None else R.choice([None, None, 'uniform'])
                     if hc and idx_like not in (None, 'uniform'):
                         idx_like = 'uniform'
+                    if hc and (nrows if not isinstance(nrows, dict) else nrows[f]) < 2:
+                        idx_like = None       # a single row has no spacing: an indexed frame is refused in the mode
                     if idx_like and not dtype.startswith('float') and R.random() < 0.5:
                         dtype = o['dtype'] = R.choice(['float64', 'float32'])
                 o['index_like'] = idx_like
@@ -365,6 +367,7 @@ def gen_spec(R, *, n_lf=None, hc=False, small=False, kinds=None, vrl=None, rows=
                 payload = ''.join(chr(R.randrange(32, 127)) for _ in range(min(n, 300)))
             lf['noformat'].append((R.choice(nfs), payload))
         spec['lfs'].append(lf)
+    spec['object_routes'] = R.random() < 0.25
     data_kinds = ['inline', 'inline', 'dict'] + (['struct', 'struct', 'hdf5'] if n_lf == 1 else [])
     if fastpath:
         # the structured array IS the frame: same field names, same order, nothing else -> no-copy path of
@@ -391,6 +394,15 @@ def gen_spec(R, *, n_lf=None, hc=False, small=False, kinds=None, vrl=None, rows=
                                                     spec['sul']['max_record_length'] + 10, 2**16]),
                      'from_idx': 0, 'to_idx': None, 'data_kind': R.choice(data_kinds),
                      'source_opts': {'perm_seed': R.randrange(1000), 'extra': R.choice([0, 0, 2]), 'exact': fastpath}}
+    # a row window (applies to every frame of every logical file): only when no frame has an index type, whose
+    # derived attributes are the business of C13
+    min_rows = min(o['data'].shape[0] for lf in spec['lfs'] for o in lf['objects'] if o['kind'] == 'channel')
+    indexed = any('index_type' in o['attrs'] for lf in spec['lfs'] for o in lf['objects'] if o['kind'] == 'frame')
+    if not indexed and not fastpath and min_rows >= 2 and R.random() < 0.3:
+        lo = R.randrange(0, min_rows - 1)
+        spec['write']['from_idx'] = lo
+        if R.random() < 0.6:
+            spec['write']['to_idx'] = R.randrange(lo + 1, min_rows + 1)
     return spec
 
 
@@ -413,14 +425,25 @@ def build(spec):
     """-> Built (df, handles per logical file, data dict per logical file); exceptions propagate"""
     b = Built()
     s = spec['sul']
-    b.df = DLISFile(set_identifier=s['set_identifier'], sul_sequence_number=s['sul_sequence_number'],
-                    max_record_length=s['max_record_length'])
+    if spec.get('object_routes'):
+        # the label and the file headers handed in as ready-made objects instead of keyword values
+        from dliswriter.logical_record.misc.storage_unit_label import StorageUnitLabel
+        b.df = DLISFile(storage_unit_label=StorageUnitLabel(s['set_identifier'], sequence_number=s['sul_sequence_number'],
+                                                            max_record_length=s['max_record_length']))
+    else:
+        b.df = DLISFile(set_identifier=s['set_identifier'], sul_sequence_number=s['sul_sequence_number'],
+                        max_record_length=s['max_record_length'])
     b.handles = []
     b.data = {}
     b.arrays = []      # (lf index, object index, array as handed to the package)
     for li, lf in enumerate(spec['lfs']):
-        L = b.df.add_logical_file(fh_id=lf['fh_id'], fh_sequence_number=lf['fh_sequence_number'],
-                                  fh_identifier=lf['fh_identifier'])
+        if spec.get('object_routes'):
+            fh = eflr_types.FileHeaderItem(lf['fh_id'], parent=eflr_types.FileHeaderSet(),
+                                           sequence_number=lf['fh_sequence_number'], identifier=lf['fh_identifier'])
+            L = b.df.add_logical_file(file_header=fh)
+        else:
+            L = b.df.add_logical_file(fh_id=lf['fh_id'], fh_sequence_number=lf['fh_sequence_number'],
+                                      fh_identifier=lf['fh_identifier'])
         hs = []
         b.handles.append(hs)
         for oi, o in enumerate(lf['objects']):
